@@ -42,6 +42,13 @@ RunOffsSame == {<<3001, 0>>}
 \* a variable timer queued at wrap-time 0 (65536 s = 2^16 s) in slot 0: where a Default key points
 AddOffsWrap0 == {<<25536, 0>>, <<65536, 0>>}
 RunOffsWrap0 == {<<40000, 0>>}
+\* a Max timer and fixed timers on one and the same tick (slot number = sequence number ties in the queue order)
+AddOffsTie == {<<5, 0>>}
+RunOffsTie == {<<6, 0>>}
+FixedMax == {"fixed", "max"}
+\* a Min timer whose hop is less than half a second away when it is deleted / pulled in, then slot reuse
+AddOffsMinDel == {<<0, 600000000>>, <<0, 200000000>>}
+RunOffsMinDel == {<<0, 500000000>>, <<1, 0>>}
 AddOffsNear == {<<32766, 200000000>>, <<32766, 500000000>>, <<32766, 900000000>>, <<32767, 100000000>>}
 RunOffsNear == {<<0, 900000000>>, <<40000, 0>>}
 =============================================================================
